@@ -38,8 +38,11 @@ QNAN = bytes.fromhex("0000c07f")
 F32_POOL = [struct.pack("<f", x) for x in (0.0, -0.0, 1.0, -1.0, 0.5, 0.25, 2.0, 39.0, 128.0, 255.996, 1e-3, -64.5, 3.4028234663852886e38,
                                            -3.4028234663852886e38, float("inf"), float("-inf"), 1.401298464324817e-45)] + [QNAN]
 BYTE_POOL = (0x00, 0x01, 0x32, 0x7F, 0x80, 0x81, 0xCE, 0xFE, 0xFF)
-TEXTS = ["", "a", "hello", "Hover text\nsecond line", "héllo wörld", "日本語 \U0001F600", "x" * 254, "tab\there"]
-URLS = ["", "http://example.com/", "https://example.com/a/b?c=d&e=%20f#g", "x-mv:0000000001/hippo", "http://ü.example/✓"]
+# (the strings are NUL-terminated on the wire, with no length limit of their own: 255, 256 and longer ones included)
+TEXTS = ["", "a", "hello", "Hover text\nsecond line", "héllo wörld", "日本語 \U0001F600", "x" * 254, "tab\there", "y" * 255, "z" * 256, "w" * 257,
+         "long line " * 60, "é" * 300]
+URLS = ["", "http://example.com/", "https://example.com/a/b?c=d&e=%20f#g", "x-mv:0000000001/hippo", "http://ü.example/✓",
+        "http://example.com/" + "p" * 236, "http://example.com/" + "q" * 237, "http://example.com/?" + "k=v&" * 200]
 EXTRA_TYPES = (0x10, 0x20, 0x30, 0x40, 0x60, 0x70, 0x80, 0x90)
 # blob captured from a real simulator (public test data): TE of a default prim with one tinted face set
 REAL_TE = bytes.fromhex("1c9f4a6f498d48a09dc4262727193d67000000003300666686bf006666863f00000000000000000000000000000000"
